@@ -17,13 +17,15 @@ MUTANTS = [
          old="    if all_zc_indices[0] != 0:\n", new="    if all_zc_indices[0] < 0:\n",
          why="index 0 not inserted for series that start positive"),
     dict(id="c12-first-sample-sign", prop="C12", file=F,
-         old="    sign_switch = np.insert(sign_switch, 0, values[0])", new="    sign_switch = np.insert(sign_switch, 1, values[0])",
+         old="    sign_switch = np.insert(sign_switch, 0, np.sign(values[0]))", new="    sign_switch = np.insert(sign_switch, 1, np.sign(values[0]))",
          why="swapped insert position: the sign products are shifted by one sample"),
     dict(id="c12-neg-tol", prop="C12", file=F,
          old="    if tol < 0:\n        raise NotImplemented('not implemented')", new="    if tol < 0:\n        tol = 0.0",
-         why="negative tolerance silently accepted"),
+         expect="survive",
+         why="negative tolerance silently accepted - NOT a violation of the statement (quantifier: tol in {0, > 0}; the docstring gives "
+             "tol < 0 a meaning): the demand 'tol < 0 must raise' was removed after the audit, the check must stay quiet on this change"),
     dict(id="c12-sw-strict", prop="C12", file=F,
-         old="        if adj_val * last <= 0:  # only add index", new="        if adj_val * last < 0:  # only add index",
+         old="        if np.sign(adj_val) * np.sign(last) <= 0:  # only add index", new="        if np.sign(adj_val) * np.sign(last) < 0:  # only add index",
          why="non-strict -> strict: zero-valued turning points no longer split half cycles"),
     dict(id="c12-sw-noabs", prop="C12", file=F,
          old="            i_max_set = np.argmax(np.abs(peak_values_set))\n", new="            i_max_set = np.argmax(peak_values_set)\n",
@@ -51,4 +53,92 @@ MUTANTS = [
     dict(id="c12-zero-abs-tol", prop="C12", file=F,
          old="    zero_indices = np.where(values == 0)[0]", new="    zero_indices = np.where(np.abs(values) < 1e-12)[0]",
          why="exact zeros replaced by an absolute tolerance (unit dependent)"),
+]
+
+# ---- wave 2: window mutants (a variant that exists only above an arbitrary size), audit survivors M2-M5, the revert of 09dd9e3, and
+#      behaviour-preserving refactorings (expect="survive")
+MUTANTS += [
+    dict(id="c12-w-zc-tail-60000", prop="C12", file=F,
+         old="        all_zc_indices = np.delete(all_zc_indices, rem_i)\n",
+         new="        all_zc_indices = np.delete(all_zc_indices, rem_i)\n        if len(values) > 60000:\n"
+             "            all_zc_indices = np.unique(np.append(all_zc_indices, len(values) - 1))\n",
+         why="window > 60000 samples, tol > 0: a closing index is appended (absent from the zero-tolerance result) - audit M4 with another threshold"),
+    dict(id="c12-zc-tail-2200", prop="C12", file=F,
+         old="        all_zc_indices = np.delete(all_zc_indices, rem_i)\n",
+         new="        all_zc_indices = np.delete(all_zc_indices, rem_i)\n        if len(values) > 2200:\n"
+             "            all_zc_indices = np.unique(np.append(all_zc_indices, len(values) - 1))\n",
+         why="audit M4 as written: records > 2200 samples get a closing index when tol > 0"),
+    dict(id="c12-w-zc-seam-16384", prop="C12", file=F,
+         old="    sign_switch = np.insert(sign_switch, 0, np.sign(values[0]))",
+         new="    if len(values) > 16384:\n        sign_switch[16383::16384] = 1.0  # seam product left to the next block\n"
+             "    sign_switch = np.insert(sign_switch, 0, np.sign(values[0]))",
+         why="window > 16384 samples: blocked sign test never evaluates the product across a block seam (a crossing there is lost)"),
+    dict(id="c12-w-zeros-dedupe-700", prop="C12", file=F,
+         old="        no_adj_is = np.where(diff_is > 1)[0]",
+         new="        no_adj_is = np.where(diff_is > (1 if len(zero_indices) <= 700 else 2))[0]",
+         why="window > 700 exact zeros: a zero two samples after the previous one (0, x, 0) is treated as adjacent and dropped"),
+    dict(id="c12-w-sw-lastgroup-5000", prop="C12", file=F,
+         old="    if len(peak_values_set):  # add last\n",
+         new="    if len(peak_values_set) and len(peak_values) <= 5000:  # add last\n",
+         why="window > 5000 local peaks: the final half cycle is never closed (its excursion has no reported index)"),
+    dict(id="c12-w-sw-placeholder-50000", prop="C12", file=F,
+         old="    peak_values_set = [peak_values[0]]\n",
+         new="    peak_values_set = [peak_values[0] if len(peak_values) <= 50000 else 0]\n",
+         why="window > 50000 local peaks: the first excursion's own first value is replaced by the placeholder 0 again (the defect C12-F(a) "
+             "for long records: visible when the first sample is the largest of its excursion)"),
+    dict(id="c12-w-sw-tol-window-20000", prop="C12", file=F,
+         old="        adj_val = peak_values[i] + tol * sgn",
+         new="        adj_val = peak_values[i] + (tol if len(values) <= 20000 else -tol) * sgn",
+         why="window > 20000 samples x option tol > 0: tolerance applied with the wrong sign (result no longer a subsequence)"),
+    dict(id="c12-wrapper-abs", prop="C12", file=F,
+         old="    if hasattr(asig, \"values\"):\n        values = asig.values\n",
+         new="    if hasattr(asig, \"values\"):\n        values = np.abs(asig.values)\n",
+         why="audit M2: Signal objects analysed rectified by get_switched_peak_indices"),
+    dict(id="c12-wrapper-zc-keep", prop="C12", file=F,
+         old="    return get_zero_crossings_array_indices(asig.values)\n",
+         new="    return get_zero_crossings_array_indices(asig.values, keep_adj_zeros=True)\n",
+         why="audit M3 (= seeded r6-c12-signal-level-zero-crossings-default-keeps-adjacent-zeros): the wrapper keeps adjacent zeros by default"),
+    dict(id="c12-w-wrapper-cache-5000-200000", prop="C12", file=F,
+         old="    return get_zero_crossings_array_indices(asig.values)\n",
+         new="    if 5000 <= asig.npts <= 200000:\n        if getattr(asig, '_zc_cache', None) is None:\n"
+             "            asig._zc_cache = get_zero_crossings_array_indices(asig.values)\n        return asig._zc_cache.copy()\n"
+             "    return get_zero_crossings_array_indices(asig.values)\n",
+         why="cache kept on the Signal object only for mid-size records (5000 .. 200 000 samples): stale after reset_values"),
+    dict(id="c12-kf1-opening-group-all", prop="C12", file=F,
+         old="            i_max_set = np.argmax(np.abs(peak_values_set))\n            new_peak_indices.append(peak_indices_set[i_max_set])\n\n"
+             "            last = peak_values[i]",
+         new="            if tol > 0 and not new_peak_indices and np.max(np.abs(peak_values_set)) < tol:\n"
+             "                new_peak_indices.extend(peak_indices_set)\n            else:\n"
+             "                i_max_set = np.argmax(np.abs(peak_values_set))\n                new_peak_indices.append(peak_indices_set[i_max_set])\n\n"
+             "            last = peak_values[i]",
+         why="audit M5: a sub-tolerance opening group reports ALL its local peaks (was routed to C12-KF1 by the old, too broad matcher)"),
+    # needs narrow-int containers (gen.narrow_int: int8 / int16 / int32 over the full range, most negative sample = the dtype's minimum):
+    # int16 / int32 peak values wrap in abs / products.  Must-catch since the containers joined the random / tol / mid-range families.
+    dict(id="c12-revert-09dd9e3-float-peaks", prop="C12", file=F,
+         old="    peak_values = np.asarray(np.take(values, peak_indices), dtype=float)",
+         new="    peak_values = np.take(values, peak_indices)",
+         why="reverts fix 09dd9e3 (peak values kept in the caller's integer dtype): abs / products of narrow-integer peaks wrap around"),
+    dict(id="c12-w-ok-blocked-sign-8192", prop="C12", file=F, expect="survive",
+         old="    sign_switch = np.sign(values[1:]) * np.sign(values[:-1])  # signs: the product of two tiny values underflows to zero\n",
+         new="    if len(values) > 8192:\n        sign_switch = np.empty(len(values) - 1)\n        for i0 in range(0, len(values) - 1, 8192):\n"
+             "            i1 = min(len(values) - 1, i0 + 8192)\n            sign_switch[i0:i1] = np.sign(values[i0 + 1:i1 + 1]) * np.sign(values[i0:i1])\n"
+             "    else:\n        sign_switch = np.sign(values[1:]) * np.sign(values[:-1])\n",
+         why="behaviour-preserving: a CORRECT blocked sign test above 8192 samples (must not be flagged)"),
+    dict(id="c12-w-ok-sw-vectorised-sets-3000", prop="C12", file=F, expect="survive",
+         old="    switched_peak_indices = np.take(peak_indices, new_peak_indices)\n",
+         new="    if len(peak_values) > 3000:\n        new_peak_indices = np.unique(np.asarray(new_peak_indices, dtype=np.int64))\n"
+             "    switched_peak_indices = np.take(peak_indices, new_peak_indices)\n",
+         why="behaviour-preserving: above 3000 local peaks the (already ascending, distinct) group representatives pass through np.unique"),
+]
+MUTANTS += [
+    dict(id="c12-revert-e26d58f-zc-product", prop="C12", file=F,
+         old="    sign_switch = np.sign(values[1:]) * np.sign(values[:-1])  # signs",
+         new="    sign_switch = values[1:] * values[:-1]  # signs",
+         why="reverts fix e26d58f (C12-F3, crossings): the product of two samples below ~1e-154 underflows to zero and the crossing is missed - "
+             "get_zero_crossings_array_indices([1e-170, -1e-170, 1e-170]) gives [0]; caught by clause extreme-magnitudes"),
+    dict(id="c12-revert-e26d58f-sw-product", prop="C12", file=F,
+         old="        if np.sign(adj_val) * np.sign(last) <= 0:  # only add index",
+         new="        if adj_val * last <= 0:  # only add index",
+         why="reverts fix e26d58f (C12-F3, switched peaks): the product of two tiny same-sign peaks underflows to zero and is read as a sign "
+             "change - the excursion is split; caught by clause extreme-magnitudes"),
 ]
